@@ -400,10 +400,10 @@ Definition shape_ok (D : sdiagram) (se : string * selem) : bool :=
   | EPackage p => package_ok D p
   | EInh i => inh_ok D i
   | EAssoc x => assoc_ok D x
-  | EOther id nm ty _ noise =>
-      ident id && match nm with Some n => txt n && no_char ":" n | None => true end && ident ty
+  | EOther id nm ty _ nl noise =>
+      nl_ok nl && ident id && match nm with Some n => txt n && no_char ":" n | None => true end && ident ty
       && negb (existsb (String.eqb ty) ["Class"; "Package"; "Association"; "Realization"; "Generalization"])
-      && layout_ok (fun _ => None) noise
+      && layout_ok (fun _ => None) noise && inerts_ok KNone noise
   end.
 
 Lemma sok_split : forall D, sdiagram_ok D = true ->
@@ -411,7 +411,9 @@ Lemma sok_split : forall D, sdiagram_ok D = true ->
 Proof.
   intros D H. unfold sdiagram_ok in H. apply andb_true_iff in H. destruct H as [H H4]. apply andb_true_iff in H. destruct H as [H H3].
   apply andb_true_iff in H. destruct H as [H1 _].
-  split; [exact H1|]. split; [exact (sl_nodups_NoDup _ H3) | exact (sl_nodups_NoDup _ H4)].
+  split; [|split; [exact (sl_nodups_NoDup _ H3) | exact (sl_nodups_NoDup _ H4)]].
+  apply forallb_forall. intros se Hse. rewrite forallb_forall in H1. specialize (H1 se Hse).
+  apply andb_true_iff in H1. destruct H1 as [H1 _]. exact H1.
 Qed.
 
 (* what LoadAndTest does with one shape *)
@@ -425,7 +427,7 @@ Definition step (D : sdiagram) (d : rdiagram) (se : string * selem) : rdiagram :
                  rd_inhs := upsert String.eqb (si_id i) (rinh0 D i (si_real i)) (rd_inhs d) |}
   | EAssoc x => {| rd_classes := rd_classes d; rd_packages := rd_packages d;
                    rd_assocs := upsert String.eqb (sx_id x) (rassoc_of D x) (rd_assocs d); rd_inhs := rd_inhs d |}
-  | EOther _ _ _ _ _ => d
+  | EOther _ _ _ _ _ _ => d
   end.
 
 Lemma load_elem_step : goal_class -> goal_package -> goal_inh -> goal_assoc ->
@@ -441,20 +443,21 @@ Proof.
   assert (Hty : ve_type v = node_type (we_node (welem_of (snd se)))) by (subst v; reflexivity).
   assert (Hid : ve_id v = elem_id (snd se)) by (subst v; exact (node_id_welem (snd se))).
   assert (Hnm : ve_name v = elem_name (snd se)) by (subst v; exact (node_name_welem (snd se))).
-  clear Ev. unfold step. destruct (snd se) as [c|p|i|x|id nm ty par noise].
+  clear Ev. unfold step. destruct (snd se) as [c|p|i|x|id nm ty par nl noise].
   - change (node_type (we_node (welem_of (EClass c)))) with "Class" in Hty.
     change (we_node (welem_of (EClass c))) with (tree_of_class c) in HP. cbn [elem_id] in *. cbn [elem_name] in Hnm.
     assert (Hpl : top_pv_c (tree_of_class c) = top_pv (tree_of_class c)).
-    { pose proof Hsh as Hc. unfold class_ok in Hc. do 4 (apply andb_true_iff in Hc; destruct Hc as [Hc _]).
-      apply andb_true_iff in Hc. destruct Hc as [Hc C3]. apply andb_true_iff in Hc. destruct Hc as [C1 C2].
+    { pose proof Hsh as Hc. unfold class_ok in Hc. do 5 (apply andb_true_iff in Hc; destruct Hc as [Hc _]).
+      apply andb_true_iff in Hc. destruct Hc as [Hc C3]. apply andb_true_iff in Hc. destruct Hc as [Hc C2].
+      apply andb_true_iff in Hc. destruct Hc as [_ C1].
       unfold tree_of_class. apply sl_top_plain; [exact C1 | rewrite C2, C3; reflexivity | reflexivity]. }
     rewrite Hpl in HP.
     rewrite (load_elem_class _ _ d e _ v (rclass0 D c) Hm Hg Hty (GC D _ _ v c Hgn Hsh HP Hid Hnm)). rewrite Hid. reflexivity.
   - change (node_type (we_node (welem_of (EPackage p)))) with "Package" in Hty.
     change (we_node (welem_of (EPackage p))) with (tree_of_package p) in HP. cbn [elem_id] in *. cbn [elem_name] in Hnm.
     assert (Hpl : top_pv_c (tree_of_package p) = top_pv (tree_of_package p)).
-    { pose proof Hsh as Hc. unfold package_ok in Hc. do 2 (apply andb_true_iff in Hc; destruct Hc as [Hc _]).
-      apply andb_true_iff in Hc. destruct Hc as [C1 C2].
+    { pose proof Hsh as Hc. unfold package_ok in Hc. do 3 (apply andb_true_iff in Hc; destruct Hc as [Hc _]).
+      apply andb_true_iff in Hc. destruct Hc as [Hc C2]. apply andb_true_iff in Hc. destruct Hc as [_ C1].
       unfold tree_of_package. apply sl_top_plain; [exact C1 | | reflexivity].
       unfold ident in C2. apply andb_true_iff in C2. destruct C2 as [C2 _].
       apply andb_true_iff in C2. destruct C2 as [C2 C3]. rewrite C2, C3. reflexivity. }
@@ -463,7 +466,8 @@ Proof.
   - change (node_type (we_node (welem_of (EInh i)))) with (if si_real i then "Realization" else "Generalization") in Hty.
     change (we_node (welem_of (EInh i))) with (tree_of_inh i) in HP. cbn [elem_id] in *.
     assert (Hpl : top_pv_c (tree_of_inh i) = top_pv (tree_of_inh i)).
-    { pose proof Hsh as Hc. unfold inh_ok in Hc. do 5 (apply andb_true_iff in Hc; destruct Hc as [Hc _]).
+    { pose proof Hsh as Hc. unfold inh_ok in Hc. do 6 (apply andb_true_iff in Hc; destruct Hc as [Hc _]).
+      apply andb_true_iff in Hc. destruct Hc as [_ Hc].
       unfold tree_of_inh. apply sl_top_plain; [exact Hc | reflexivity | destruct (si_real i); reflexivity]. }
     rewrite Hpl in HP.
     rewrite (load_elem_inh _ _ d e _ v (si_real i) (rinh0 D i (si_real i)) Hm Hg Hty (GI D _ _ v i (si_real i) Hgn Hsh HP Hid)).
@@ -471,9 +475,9 @@ Proof.
   - change (node_type (we_node (welem_of (EAssoc x)))) with "Association" in Hty.
     change (we_node (welem_of (EAssoc x))) with (tree_of_assoc x) in HP. cbn [elem_id] in *. cbn [elem_name] in Hnm.
     rewrite (load_elem_assoc _ _ d e _ v (rassoc_of D x) Hm Hg Hty (GA D _ _ v x Hgn Hsh HP Hid Hnm)). rewrite Hid. reflexivity.
-  - change (node_type (we_node (welem_of (EOther id nm ty par noise)))) with ty in Hty.
+  - change (node_type (we_node (welem_of (EOther id nm ty par nl noise)))) with ty in Hty.
     apply (load_elem_other _ _ d e _ v Hm Hg). rewrite Hty.
-    apply andb_true_iff in Hsh. destruct Hsh as [Hsh _]. apply andb_true_iff in Hsh. destruct Hsh as [_ Hsh].
+    do 2 (apply andb_true_iff in Hsh; destruct Hsh as [Hsh _]). apply andb_true_iff in Hsh. destruct Hsh as [_ Hsh].
     apply negb_true_iff in Hsh. exact Hsh.
 Qed.
 
@@ -672,7 +676,7 @@ Proof.
   unfold all_paths in Hp. apply in_flat_map in Hp. destruct Hp as [[sid0 e0] [Hin0 Hp]]. cbn [snd] in Hp.
   destruct e0 as [c|k0|i|x|a b c0 d e1]; try (destruct Hp).
   pose proof (Hsh _ Hin0) as Hk0. unfold shape_ok in Hk0. cbn [snd] in Hk0. unfold package_ok in Hk0.
-  apply andb_true_iff in Hk0. destruct Hk0 as [Hk0 _]. apply andb_true_iff in Hk0. destruct Hk0 as [_ Hk0].
+  do 2 (apply andb_true_iff in Hk0; destruct Hk0 as [Hk0 _]). apply andb_true_iff in Hk0. destruct Hk0 as [_ Hk0].
   rewrite forallb_forall in Hk0. specialize (Hk0 p Hp).
   apply andb_true_iff in Hk0. destruct Hk0 as [Hk0 Hpk]. apply andb_true_iff in Hk0. destruct Hk0 as [Hne Hid].
   split; [|split].
@@ -685,7 +689,7 @@ Proof.
     split.
     + pose proof (name_of_shape D (sid, EPackage k) Hnd Hin) as Hn. cbn [snd elem_id elem_name] in Hn. rewrite Eid in Hn. rewrite Hn. reflexivity.
     + pose proof (Hsh _ Hin) as Hk1. unfold shape_ok in Hk1. cbn [snd] in Hk1. unfold package_ok in Hk1.
-      apply andb_true_iff in Hk1. destruct Hk1 as [Hk1 _]. apply andb_true_iff in Hk1. destruct Hk1 as [Hk1 _].
+      do 3 (apply andb_true_iff in Hk1; destruct Hk1 as [Hk1 _]).
       apply andb_true_iff in Hk1. destruct Hk1 as [_ Hk1]. exact Hk1.
 Qed.
 
